@@ -105,8 +105,12 @@ if __name__ == "__main__":
     a = ap.parse_args()
     ok = True
     for sd in a.dirs:
-        if a.cmd == "confirm":
-            ok &= confirm(sd)
-        else:
-            run(sd, a.tier, [p for p in a.props.split(",") if p], a.in_repo)
+        try:
+            if a.cmd == "confirm":
+                ok &= confirm(sd)
+            else:
+                run(sd, a.tier, [p for p in a.props.split(",") if p], a.in_repo)
+        except SystemExit as e:  # a patch that no longer applies: reported, the others still run
+            print(sd, "SKIPPED:", str(e).splitlines()[0])
+            ok = False
     sys.exit(0 if ok else 1)
